@@ -3,14 +3,15 @@
 # Applies seeded/<name>/patch.diff to /repo, runs the quick checks of the given properties
 # (default: the property in meta.json), prints exit status and VIOLATION lines, reverts /repo.
 set -u
+REPO="${VERIF_REPO:-/repo}"
 cd "$(dirname "$0")/.."
 name="$1"; shift
 dir="seeded/$name"
 props="$*"
 if [ -z "$props" ]; then props=$(python3 -c "import json;print(json.load(open('$dir/meta.json'))['property'])"); fi
-if [ -n "$(git -C /repo status --porcelain --untracked-files=no)" ]; then echo "/repo has local changes; refusing"; exit 2; fi
-git -C /repo apply "$PWD/$dir/patch.diff" || { echo "patch does not apply"; exit 2; }
-trap 'git -C /repo checkout -- . ; git -C /repo clean -fdq -e target >/dev/null 2>&1' EXIT
+if [ -n "$(git -C "$REPO" status --porcelain --untracked-files=no)" ]; then echo "$REPO has local changes; refusing"; exit 2; fi
+git -C "$REPO" apply "$PWD/$dir/patch.diff" || { echo "patch does not apply"; exit 2; }
+trap 'git -C "$REPO" checkout -- . ; git -C "$REPO" clean -fdq -e target >/dev/null 2>&1' EXIT
 for p in $props; do
   for seed in ${SEEDS:-1}; do
     out=$(VERIF_SEED=$seed ./check "$p" --tier quick 2>&1); rc=$?
